@@ -58,6 +58,12 @@ def run(chk):
         t.meta = {"kind": "one-too-many"}
         t.add("start %d %d" % (sz, n)); t.add("seg %d %s" % (n, "5a" * sz)); t.add("seg %d %s" % (max(1, n - 1), "a5" * sz)); t.add("hdrs")
         scns.append(t)
+    # resumed sessions: clean reboots during parity processing with 9..40 unknowns (what recovery rebuilds decides where the next rows go)
+    from . import c07
+    for _ in range(6 if chk.quick() else 60):
+        b = c07.big_loss_base(rnd)
+        fc = len([i for i in b.meta["seq"] if i <= b.meta["n"]])
+        scns += [t for t in c07.twin_scenarios(rnd, True, base=b, positions=lambda npos, fc=fc: sorted(rnd.sample(range(fc + 1, npos), min(4, npos - fc - 1)))) if t.meta["tag"] != "ref"]
     lines, impl, outs = session.run(chk, scns, stream="session-oplog")
     nt, nops, dist = [], 0, {"erases": 0, "programs": 0, "scenarios_in_last_slot": 0}
     for s, l, raw, out in zip(scns, lines, impl, outs):
@@ -75,7 +81,7 @@ def run(chk):
         for msg in monitor(s, out, sess_ops, pair)[:2]:
             chk.failures.append(core.Failure(msg, "session", "matrix", l, raw[:2000], key="c08"))
         nt.append(l)
-        if len(chk.failures) > 10: break
+        if chk.too_many(): break
     chk.note_cases("session-oplog", lines, nt, sample_n=1, dist=dist)
     # the single-erasure back-end (same Slot layer, its own index arithmetic): deliveries incl. indices around the end of the parity slot
     from . import v1
@@ -100,6 +106,6 @@ def run(chk):
     chk.cov["evaluations"] += r["transitions"]
     chk.cov["streams"]["ring-closure[N=4]"].update({"states": r["states"], "transitions": r["transitions"], "closed": r["exhaustive"]})
     return chk.finish(level="proof", extra={"flash_operations_monitored": nops},
-        rule="naive-oplog: the same monitor over deliveries of the single-erasure back-end incl. the fragment indices around the end of the parity slot; session-oplog: deliveries with ring histories (all slot positions incl. the last slot), losses up to and beyond the capacity, geometries over all fragment sizes, fragment counts one beyond what fits followed by the last fragments; every erase / program is checked: inside one slot, inside the session's pair, "
+        rule="naive-oplog: the same monitor over deliveries of the single-erasure back-end incl. the fragment indices around the end of the parity slot; session-oplog: deliveries with ring histories (all slot positions incl. the last slot), losses up to and beyond the capacity, geometries over all fragment sizes, fragment counts one beyond what fits followed by the last fragments, sessions resumed by try_recover during parity processing (9..40 unknowns); every erase / program is checked: inside one slot, inside the session's pair, "
              "header-area programs = one of the seven fields, no 0->1 need; ring closure: correspondence of every other call's operation log; non-trivial = every scenario (all issue flash operations); distinct by case text",
         trusted=core.TRUSTED_COMMON + ["C08: read-back equality follows from 'no program needs a 0->1 transition' under the AND-program device model of SimNor / Nor.v"])
